@@ -18,6 +18,9 @@ import Mathlib.Tactic.NormNum
   `[tFrontMax, tBackMin]` with the block's effective parameter set (`feEff`/`isEff`,
   which spell out what the block does when its overflow guard fails).
 * `fe_run_master` / `is_run_master`: three blocks in sequence.
+
+The predicates the `_guardpath` theorems are stated with (`inSlab`, `feEff`, `isEff`, `feEff3`,
+`isEff3`) live in `Spec/RayBoxSpec.lean`.
 -/
 set_option linter.unusedSectionVars false
 namespace ImathVerif.RayBox
@@ -28,8 +31,6 @@ theorem iabs_eq_abs (a : α) : iabs a = |a| := by
   split_ifs with h
   · exact (abs_of_pos h).symm
   · exact (abs_of_nonpos (not_lt.mp h)).symm
-
-def inSlab (p d lo hi t : α) : Prop := lo ≤ p + t * d ∧ p + t * d ≤ hi
 
 theorem inSlab_pos {p d lo hi t : α} (hd : 0 < d) :
     inSlab p d lo hi t ↔ (lo - p) / d ≤ t ∧ t ≤ (hi - p) / d := by
@@ -110,12 +111,6 @@ theorem not_codeGuard_zero {T p lo hi : α} : ¬ CodeGuard T p 0 lo hi := by
   rintro (h | ⟨h, _⟩)
   · exact absurd h (by norm_num)
   · exact absurd h (not_lt.mpr (abs_nonneg _))
-
-/-- What one axis block of `findEntryAndExitPoints` contributes to the
-parameter set: the exact slab when the guard passes; when it fails the block
-treats the direction component as zero. -/
-def feEff (T p d lo hi t : α) : Prop :=
-  (CodeGuard T p d lo hi → inSlab p d lo hi t) ∧ (¬ CodeGuard T p d lo hi → lo ≤ p ∧ p ≤ hi)
 
 /-- Update record for a reported point: unchanged, or rewritten at parameter
 `t'` on a face `f` of this axis with `p + t' * d = f`. -/
@@ -298,11 +293,6 @@ theorem upd_reported {r : Line3 α} {b : Box3 α} {p d lo hi : α} {mk : α → 
   · rw [h1, h2]; exact h
   · intro _; rw [hq]; exact hmk t' f hf he
 
-/-- Effective parameter set of the three axis blocks of `findEntryAndExitPoints`. -/
-def feEff3 (T : α) (r : Line3 α) (b : Box3 α) (t : α) : Prop :=
-  feEff T r.pos.x r.dir.x b.min.x b.max.x t ∧ feEff T r.pos.y r.dir.y b.min.y b.max.y t ∧
-  feEff T r.pos.z r.dir.z b.min.z b.max.z t
-
 
 /-- The three axis blocks in sequence, over the generic block. -/
 def feRun (T : α) (r : Line3 α) (b : Box3 α) (s0 : FEState α) : Bool × V3 α × V3 α :=
@@ -434,16 +424,6 @@ theorem isY_eq (T : α) (r : Line3 α) (b : Box3 α) (s : ISState α) :
     isY T r b s = isAxis T r.pos.y r.dir.y b.min.y b.max.y (mkY r b) s := rfl
 theorem isZ_eq (T : α) (r : Line3 α) (b : Box3 α) (s : ISState α) :
     isZ T r b s = isAxis T r.pos.z r.dir.z b.min.z b.max.z (mkZ r b) s := rfl
-
-/-- What one axis block of `intersects` contributes, exactly as coded (including
-the `TMAX` substitution for the front parameter and the skipped back update
-when a guard fails). -/
-def isEff (T p d lo hi t : α) : Prop :=
-  (0 < d → p ≤ hi ∧ ((d > 1 ∨ hi - p < T * d) → t ≤ (hi - p) / d) ∧
-            (p ≤ lo → (if d > 1 ∨ lo - p < T * d then (lo - p) / d else T) ≤ t)) ∧
-  (d < 0 → lo ≤ p ∧ ((d < -1 ∨ lo - p > T * d) → t ≤ (lo - p) / d) ∧
-            (hi ≤ p → (if d < -1 ∨ hi - p > T * d then (hi - p) / d else T) ≤ t)) ∧
-  (d = 0 → lo ≤ p ∧ p ≤ hi)
 
 /-- Update record for `ip`; the face equation holds when the guard passed. -/
 def IUpd (g : Prop) (p d lo hi : α) (mk : α → α → V3 α) (t t' : α) (q q' : V3 α) : Prop :=
@@ -633,11 +613,6 @@ theorem iupd_reported {r : Line3 α} {b : Box3 α} {g : Prop} {p d lo hi : α} {
   rcases hu with ⟨h1, h2⟩ | ⟨f, hf, he, hq⟩
   · rw [h1, h2]; exact h
   · intro _; rw [hq]; exact hmk t' f hf (he hg)
-
-/-- Effective parameter set of the three axis blocks of `intersects`. -/
-def isEff3 (T : α) (r : Line3 α) (b : Box3 α) (t : α) : Prop :=
-  isEff T r.pos.x r.dir.x b.min.x b.max.x t ∧ isEff T r.pos.y r.dir.y b.min.y b.max.y t ∧
-  isEff T r.pos.z r.dir.z b.min.z b.max.z t
 
 def isRun (T : α) (r : Line3 α) (b : Box3 α) (s0 : ISState α) : Bool × V3 α :=
   match isAxis T r.pos.x r.dir.x b.min.x b.max.x (mkX r b) s0 with
